@@ -1,4 +1,5 @@
 import PolyVerif.Base.JVal
+import PolyVerif.Base.JsonRead
 import PolyVerif.Gen.PolyStructs
 import PolyVerif.Model.Transform
 /-
@@ -427,6 +428,17 @@ therefore records the pointee's text (`relinkTo s.sequence`), not an identity of
 def polyjsonParse (j : JVal) : Sequence :=
   let s := fromJ j
   { s with features := some ((s.features.getD []).map (relinkTo s.sequence)) }
+
+/-! ### the same at the level of JSON TEXT (the Lean printer / reader of Base/JVal, Base/JsonRead) -/
+
+/-- `json.Marshal(x)` as text: compact form, members in struct order, Go's string escapes -/
+def writeText (x : Sequence) : S := (toJ x).print
+
+/-- `polyjson.Parse(text)`; `none`: the text is not a JSON document (Go: Unmarshal error, ignored by Parse) -/
+def parseText (t : S) : Option Sequence := (JsonRead.parse t).map polyjsonParse
+
+/-- plain `json.Unmarshal(text, &sequence)` -/
+def unmarshalText (t : S) : Option Sequence := (JsonRead.parse t).map fromJ
 
 /-! ### Feature.GetSequence -/
 
